@@ -44,6 +44,8 @@ Next ==
   /\ \/ \E s \in Servers : SetServer(s) /\ UNCHANGED cache
      \/ /\ cache' = [cache EXCEPT !.fresh = FALSE]          \* time passes: the timestamp becomes old
         /\ UNCHANGED pvars
+     \/ /\ cache' = [cache EXCEPT !.sum = 0]                \* the stored checksum is lost (file deleted or truncated); the copy stays
+        /\ UNCHANGED pvars
      \/ \E f \in FlagSets : LET d == Decide(f) IN
           /\ ("timeout" \in f) = (srv.mode = "slow")          \* the short timeout is only used to make "slow" affordable
           /\ Invocation(f, [exit |-> d.exit, ran |-> d.ran]) /\ cache' = d.cache
